@@ -11,19 +11,21 @@ import (
 var profileWeights = map[string]map[string]float64{
 	"locking": {
 		"block": 10, "el.locking": 9, "el.adversarial": 0.3,
-		"p.absent": 0.10, "p.evidence": 0.03, "p.round": 0.04, "p.timejump": 0.08, "p.crash": 0.02, "p.engine": 0.02, "p.reexec": 0.02,
+		"p.absent": 0.10, "p.evidence": 0.03, "p.round": 0.04, "p.timejump": 0.08, "p.crash": 0.02, "p.engine": 0.02, "p.reexec": 0.02, "p.timecollide": 0.10,
 	},
 	"engine": {
 		"block": 10, "el.locking": 3, "rel.hashes": 1, "rel.deposit": 1, "el.bridge": 1,
 		"p.engine": 0.30, "p.finfault": 0.22, "p.crash": 0.10, "p.round": 0.08, "p.elrestart": 0.05, "p.skew": 0.03, "p.timejump": 0.02,
 	},
 	"determinism": {
-		"block": 10, "el.locking": 5, "el.adversarial": 4, "rel.hashes": 1, "rel.deposit": 1, "el.bridge": 1, "rel.withdraw": 1,
-		"p.absent": 0.08, "p.evidence": 0.02, "p.crash": 0.12, "p.reexec": 0.25, "p.skew": 0.10, "p.round": 0.05, "p.engine": 0.05, "p.timejump": 0.04,
+		"block": 10, "el.locking": 5, "el.adversarial": 4, "rel.hashes": 1.5, "rel.deposit": 1.5, "el.bridge": 1, "rel.withdraw": 1,
+		// relayer transactions that fail part-way (C07: "blocks whose transactions fail part-way")
+		"btc.mine": 1.5, "rel.baddeposit": 1.5, "rel.badwithdraw": 1.2, "rel.forged": 1.2, "rel.replay": 0.6, "rel.group": 0.6, "el.params": 0.4, "probe.fuzztx": 0.6,
+		"p.absent": 0.08, "p.evidence": 0.02, "p.crash": 0.12, "p.reexec": 0.25, "p.skew": 0.10, "p.round": 0.05, "p.engine": 0.05, "p.timejump": 0.04, "p.timecollide": 0.04,
 	},
 	"handover": {
 		"block": 10, "rel.hashes": 4, "rel.deposit": 5, "el.bridge": 4, "rel.withdraw": 4, "el.locking": 5, "el.adversarial": 0.5,
-		"p.round": 0.15, "p.crash": 0.10, "p.engine": 0.10, "p.finfault": 0.05, "p.timejump": 0.05, "p.byz": 0.10,
+		"p.round": 0.15, "p.crash": 0.10, "p.engine": 0.10, "p.finfault": 0.05, "p.timejump": 0.05, "p.byz": 0.10, "p.timecollide": 0.06,
 	},
 	"relayer": {
 		"block": 10, "rel.hashes": 3, "rel.pubkey": 1, "rel.consolidation": 1, "rel.group": 4, "rel.forged": 6, "rel.replay": 4, "rel.deposit": 1, "rel.withdraw": 2, "el.bridge": 2,
@@ -65,7 +67,7 @@ var propertyProfiles = map[string][]string{
 	"C03": {"deposits", "handover", "export"},
 	"C05": {"withdrawals", "handover", "export"},
 	"C06": {"handover", "engine", "locking", "withdrawals", "deposits"},
-	"C07": {"determinism", "locking", "engine", "handover"},
+	"C07": {"determinism", "locking", "engine", "handover", "deposits", "withdrawals", "relayer"},
 	"C08": {"proposal", "handover", "locking", "engine"},
 	"C09": {"engine", "handover", "determinism"},
 	"C10": {"admission", "relayer", "fuzz"},
@@ -124,6 +126,9 @@ func drawConfig(profile string, tier string, r *Rand) Config {
 	c.BlockMs = int64(1000 + r.Intn(4000))
 	c.UnlockSec = int64(5 + r.Intn(60))
 	c.ExitSec = c.UnlockSec + int64(r.Intn(120))
+	if r.Chance(0.12) {
+		c.ExitSec = c.UnlockSec // legal (Params.Validate): exits and ordinary unlocks of one block share a maturity
+	}
 	c.JailSec = int64(60 + r.Intn(60))
 	c.HalvingInterval = int64(3 + r.Intn(48))
 	c.InitialReward = []int64{1, 1000, 2378234400000000000, 1<<63 - 1}[r.Intn(4)]
